@@ -514,6 +514,46 @@ pub fn gen_parse(c: &mut Ctx, out: &mut Vec<String>) {
             let k = c.rng.below(msg.len() as u64) as usize;
             out.push(format!("msg op=parse b={}", hex_or_dash(&msg[..k])));
         }
+        // two attributes of one type, the first one malformed for its typed decoder, the second valid:
+        // lookups return the FIRST match (typed extraction must report the decoding error, not skip it)
+        if c.rng.chance(1, 3) {
+            let (ty, bad, good): (u16, Vec<u8>, Vec<u8>) = match c.rng.below(4) {
+                0 => (0x8022, vec![0xff, 0xfe, 0x80], b"ok".to_vec()),
+                1 => (0x0024, vec![1, 2, 3], vec![0, 0, 0, 7]),
+                2 => (0x0020, vec![0, 9, 1, 2, 3, 4, 5, 6], vec![0, 1, 0x21, 0x12, 1, 2, 3, 4]),
+                _ => (0x0006, vec![0xc0], b"user".to_vec()),
+            };
+            let mut m = header(rand_type(c.rng), 0, rand_tid(c.rng));
+            if c.rng.chance(1, 2) {
+                let (t, v) = ordinary(c.rng);
+                if t != ty {
+                    m.extend(tlv(t, &v, 0));
+                }
+            }
+            m.extend(tlv(ty, &bad, 0));
+            m.extend(tlv(ty, &good, 0));
+            set_len(&mut m);
+            out.push(format!("msg op=parse b={}", hex(&m)));
+            out.push(format!("msg op=typed b={}", hex(&m)));
+        }
+        // messages at the 16-bit boundary of the length field (declared length 0xffe4..=0xfffc), whole,
+        // shortened and with one byte too many
+        if c.rng.chance(1, 40) {
+            let body = *c.rng.pick(&[0xffe4usize, 0xffe8, 0xffec, 0xfff0, 0xfff8, 0xfffc]);
+            let mut m = header(rand_type(c.rng), 0, rand_tid(c.rng));
+            let small = tlv(0x8022, b"edge", 0);
+            m.extend(&small);
+            let big = body - small.len() - 4;
+            m.extend(tlv(0xff42, &vec![0x61u8; big], 0));
+            set_len(&mut m);
+            out.push(format!("msg op=parse b={}", hex(&m)));
+            let k = 1 + c.rng.below(9) as usize;
+            out.push(format!("msg op=parse b={}", hex(&m[..m.len() - k])));
+            out.push(format!("msg op=parse b={}", hex(&m[..20 + c.rng.below(40) as usize])));
+            let mut e = m.clone();
+            e.push(0);
+            out.push(format!("msg op=parse b={}", hex(&e)));
+        }
         // malformed bodies under a header whose declared length MATCHES the buffer (so the length
         // check passes and the attribute walk itself has to notice):
         // (a) the last 1..7 bytes chopped off (missing padding, partly cut last attribute)
@@ -674,7 +714,7 @@ pub fn gen_validate(c: &mut Ctx, out: &mut Vec<String>) {
 /// msg.police (C16): request messages x supported/required subsets of present and absent types
 pub fn gen_police(c: &mut Ctx, out: &mut Vec<String>) {
     for _ in 0..c.count {
-        let tail = c.rng.pick(&["", "", "i", "f", "if", "ij", "ijf", "jf", "j"]).to_string();
+        let tail = c.rng.pick(&["", "", "i", "f", "if", "ij", "ijf", "jf", "j", "ji", "jif"]).to_string();
         // class bits cleared: a request
         let ty = rand_type(c.rng) & !0x0110;
         let tid = rand_tid(c.rng);
@@ -711,6 +751,24 @@ fn subset(rng: &mut Rng, pool: &[u16]) -> String {
         if take {
             v.push(format!("{:04x}", t));
         }
+    }
+    // long lists (dozens of entries: filler types in front of, between and after the interesting ones,
+    // repeated entries), so that a present type can sit at any index
+    if rng.chance(1, 6) {
+        let n = 20 + rng.below(60) as usize;
+        let mut long: Vec<String> = vec![];
+        for i in 0..n {
+            long.push(format!("{:04x}", 0x4000u16 + (i as u16) * 7 + rng.below(5) as u16));
+        }
+        for t in v.drain(..) {
+            let at = rng.below(long.len() as u64 + 1) as usize;
+            long.insert(at, t);
+        }
+        if rng.chance(1, 3) && !long.is_empty() {
+            let d = long[rng.below(long.len() as u64) as usize].clone();
+            long.push(d);
+        }
+        v = long;
     }
     if v.is_empty() {
         "-".into()
